@@ -85,8 +85,19 @@ func (RxEngine) Generate(prop string, r *kit.Rand, tier string) *kit.Scenario[Rx
 		// a peer that starts many large messages and finishes none: first fragments that announce thousands of
 		// fragments, each under its own sequence number
 		perm := r.Perm(48)
+		// ... or announces a message twice under the same sequence number, with another fragment count
+		reannounce := r.Chance(0.5)
 		for _, m := range perm[:r.Range(20, 48)] {
-			sc.Ops = append(sc.Ops, RxOp{Base: "fragx", Seed: m, Mut: "fragfield", At: 1, Val: kit.Pick(r, []uint64{8800, 8799, 4000, 1000})})
+			huge := RxOp{Base: "fragx", Seed: m, Mut: "fragfield", At: 1, Val: kit.Pick(r, []uint64{8800, 8799, 4000, 1000})}
+			if reannounce {
+				pair := []RxOp{{Base: "fragx", Seed: m}, huge}
+				if r.Chance(0.3) {
+					pair[0], pair[1] = pair[1], pair[0]
+				}
+				sc.Ops = append(sc.Ops, pair...)
+				continue
+			}
+			sc.Ops = append(sc.Ops, huge)
 		}
 		return sc
 	}
